@@ -5,7 +5,7 @@ M = "core/Macros.cpp"
 CH = ["--bounds-check", "--pointer-check"]
 GROUPS = [
     Group(name="C09/macros_expand_params.substitution[bounded]", unity="C16/u_macros.cpp", entry="h_expand_script", functions=[("macros_expand_params", M, "harness, bounded")],
-          defines=["SCRIPTED"], unwind=14, checks=CH, timeout=900,
+          defines=["SCRIPTED"], unwind=14, checks=CH, timeout=2400, tier="thorough",
           bounded="two arguments of 3 and 1 arbitrary ordinary characters (blanks allowed inside), body '<p1>+<p2>'"),
     Group(name="C09/get_param_index[bounded]", unity="C09/u_param.cpp", entry="h_param_index", functions=[("get_param_index", M, "harness, bounded")],
           unwind=8, checks=CH, timeout=600, bounded="parameter lists of two names of 1..2 characters over {a,b}, looked-up name of 1..2 characters"),
